@@ -1388,7 +1388,7 @@ pub fn main(cli: &Cli) -> i32 {
     let seed = cli.seed;
     let determinism = cli.mode.as_deref() == Some("determinism");
     let mut ev = Evidence::new(PROP, cli);
-    let sup = supervise(cli, n, &[], 60);
+    let sup = supervise(cli, n, &[], 240);
     let mut batch = 0xcbf2_9ce4_8422_2325u64;
     for r in &sup.runs {
         batch = rng::fnv64_extend(batch, &r.k.to_le_bytes());
